@@ -109,6 +109,17 @@ func (vc *VC) mergeVals(name string, vals []Val, pcs []Term) Val {
 			out.F[i] = vc.mergeVals(name, fs, pcs)
 		}
 		return out
+	case *ElemPtr:
+		bs, is := make([]Val, len(vals)), make([]Val, len(vals))
+		for j, v := range vals {
+			e, ok := v.(*ElemPtr)
+			if !ok || e.Key != v0.Key {
+				vc.errorf(token.NoPos, "unsupported: join of different element pointers in %s", name)
+				return v0
+			}
+			bs[j], is[j] = e.Base, e.Idx
+		}
+		return &ElemPtr{Elem: v0.Elem, Key: v0.Key, Base: vc.mergeVals(name, bs, pcs).(Term), Idx: vc.mergeVals(name, is, pcs).(Term)}
 	case TupleV:
 		out := make(TupleV, len(v0))
 		for i := range v0 {
